@@ -106,7 +106,7 @@ def f1(prog, ctx):
                      "property map, isoform->feature map and profile object")
                 cnt += 1
                 n += 1
-    ctx.floor("F1", "set_feature_properties call sites", cnt, 4)
+    ctx.floor("F1", "set_feature_properties call sites", cnt, 2)
     # 5. set_feature_properties emits one FeatureInfo per feature, in order
     sfp = prog.func("src/gene_info.py", "GeneInfo.set_feature_properties")
     loops = [l for l in walk_no_nested(sfp) if isinstance(l, ast.For) and src(l.iter) == "feature_profiles.features"
